@@ -185,7 +185,9 @@ cdef class Explicit_RungeKutta:
                              f"{self.rk_step}")
 
         self.interpolate = bi is not None and self.interpolate
-        if self.interpolate:
+        if bi is not None:
+            # The dense output is also used when ``interpolate`` is off and
+            # the target time is inside the last step.
             self.denseout_order = bi.shape[1]
             if bi.shape[0] != self.rk_extra_step:
                 raise ValueError("The interpolation coefficient's shape must "
